@@ -65,7 +65,7 @@ def _cols(rnd, table, first, n, allow_unsupported=False):
 
 def gen_cases(ctx):
     rnd = random.Random(ctx.seed * 104729 + 5)
-    n = 160 if ctx.thorough else 42
+    n = 600 if ctx.thorough else 42
     cases = []
     for idx in range(n):
         sy = rnd.randrange(1952, 2050)
@@ -162,6 +162,11 @@ def _run(ctx):
     lo = min(c["sy"] for c in cases)
     hi = max(c["eff"].year for c in cases)
     ser = wxlib.gen_series(rnd, D(lo, 1, 1), D(hi + 1, 12, 31))
+    # heavy rain on every harvest day: the day is computed in several sub-steps, the crop record must still be one
+    harvest_days = set(h for c in cases for _, _, h in c["rot"])
+    for d, r in ser:
+        if d in harvest_days:
+            r["prec"] = rnd.choice(["95.0", "160.0", "61.5"])
     wcfg = wxlib.write_weather(root, "w", 1, "WX", ser)
     lines = []
     for c in cases:
